@@ -28,7 +28,7 @@ ASSUMPTIONS = [
 REQUIRED_COUNTERS = ["signals_on_recycled_pid", "sink_events_checked"]
 
 PID = 7
-SIGNOS = sorted(set(range(1, 65)) | {int(s) for s in signal.Signals})
+SIGNOS = sorted(set(range(0, 65)) | {int(s) for s in signal.Signals})       # 0: the null signal is a request like any other
 
 
 def alphabet():
@@ -112,6 +112,10 @@ def gen_random(rng):
             state[p] = "tid"
         elif r < 0.05 and state[p] == "live":
             hist.append(("thread", p, 300 + len(hist)))         # the process becomes multi-threaded (ids of their own)
+        elif r < 0.065 and nh:
+            # the machine is short of descriptors / memory for a moment: the next open of a /proc/<pid>/stat file fails once.
+            # (Outside the statement's quantifier - what is demanded under it is only "no effect on the new owner".)
+            hist.append(("fault", rng.choice(["EMFILE", "ENFILE", "ENOMEM", "EIO"])))
         elif r < 0.08 and nh:
             # a handle is duplicated (copy.copy works for these objects; pickle / deepcopy are refused - if they ever
             # are not, the duplicate is a handle like any other)
@@ -283,11 +287,21 @@ def run_history(hist, acc, with_pid0=False, caller_pid=None):
                         if any(e[1] != 0 for e in real_events):
                             viols.append((f"pid0_setting_reached_the_caller:{op[2]}", ctx))
                     continue
+                fault_now = w.fault_fired_tick == rec["tick"]      # a transient resource error hit this very call
+                if fault_now:
+                    acc.count("signals_or_settings_under_a_transient_fault")
                 if rec["model_alive"]:
                     acc.count("signals_on_live_target")
                     want = norm(expected_event(op, h))
-                    if res[0] != "ok":
+                    if fault_now and res[0].startswith("exc:") and not real_events:
+                        pass        # the call failed with the resource error and did nothing
+                    elif res[0] != "ok":
                         viols.append((f"live_target_{op[0]}_raised:{res[0]}", ctx))
+                    elif want[0] == "kill" and want[2] == 0:
+                        # the null signal: the request reaches the kernel as signal 0 - and as nothing else
+                        acc.count("null_signals_on_live_target")
+                        if real_events or not any(e[0] == "kill" and e[1] == h.pid and e[2] == 0 for e in rec["events"]):
+                            viols.append(("wrong_delivery:send_signal:null_signal", ctx + f" want={want}"))
                     elif want[2] == "<all eligible>":
                         # which CPUs are "eligible" is C18's business: here exactly one request, to the right process
                         if not (len(real_events) == 1 and real_events[0][0] == "affinity_set" and real_events[0][1] == want[1]
@@ -303,7 +317,9 @@ def run_history(hist, acc, with_pid0=False, caller_pid=None):
                         if op[1] in seen_gone:
                             mech += ":after_object_saw_pid_free"
                         viols.append((mech + ":" + op[0], ctx))
-                    if res[0] != "NoSuchProcess":
+                    if fault_now and res[0].startswith("exc:"):
+                        pass        # (which error a call reports when its own probe could not be made is not stated)
+                    elif res[0] != "NoSuchProcess":
                         mech = "no_NoSuchProcess_for_gone_target"
                         if op[1] in seen_gone and rec["model_owner"] is not None:
                             mech += ":after_object_saw_pid_free"
@@ -381,6 +397,21 @@ def copy_histories():
                  ("set", 0, "affinity", []), ("set", 0, "ionice", [2, 3]), ("set", 0, "rlimit", [7, [5, 9]])]:
         out.append([("spawn", 7, False), ("thread", 7, 301), ("thread", 7, 302), ("new", 7), tail, ("isrun", 0)])
         out.append([("spawn", 7, False), ("new", 7), ("thread", 7, 301), tail, ("thread", 7, 302), tail])
+    return out
+
+
+def fault_histories():
+    """A transient resource error (EMFILE, ENFILE, ENOMEM, EIO on the next open of a stat file) right at the call made on a
+    handle whose PID was recycled - or is still the right one."""
+    out = []
+    tails = [("sig", 0, "kill", None), ("sig", 0, "terminate", None), ("sig", 0, "send_signal", 10), ("sig", 0, "send_signal", 0),
+             ("set", 0, "nice", 5), ("set", 0, "ionice", [2, 3]), ("set", 0, "affinity", [1]), ("set", 0, "rlimit", [7, [5, 9]])]
+    for err in ("EMFILE", "ENFILE", "ENOMEM", "EIO"):
+        for tail in tails:
+            out.append([("spawn", 7, False), ("new", 7), ("vanish", 7), ("spawn", 7, False), ("fault", err), tail, tail, ("isrun", 0)])
+            out.append([("spawn", 7, False), ("new", 7), ("exit", 7), ("reap", 7), ("spawn", 7, True), ("fault", err), tail, tail])
+            out.append([("spawn", 7, False), ("new", 7), ("fault", err), tail, tail])
+            out.append([("spawn", 7, False), ("iter", "keep"), ("vanish", 7), ("spawn", 7, False), ("fault", err), tail, ("iter",), tail])
     return out
 
 
@@ -712,6 +743,9 @@ def run_shard(shard):
         for h in copy_histories():
             run_history(h, acc)
             acc.count("histories_with_copied_handles_or_multithreaded_targets")
+        for h in fault_histories():
+            run_history(h, acc)
+            acc.count("histories_with_a_transient_fault_at_the_call")
         acc.count("exhaustive_signal_numbers", len(SIGNOS))
         for opname in ("kill", "terminate", "suspend", "send_signal", "nice", "ionice", "affinity", "rlimit"):
             run_blocked_call(dict(op=opname), acc)
